@@ -393,6 +393,18 @@ def Sys.step (c : Cfg) (s : Sys) (op : Op) : Sys × (Out × Out) :=
     let b := s.rds.step c (s.clock : Int) op
     ({ s with mem := a.1, rds := b.1 }, (a.2, b.2))
 
+/-- A call issued with an ALREADY CANCELLED context. The in-memory cache never looks at the context (`_
+    context.Context`): it carries the call out as usual. On redis the go-redis client refuses before sending anything:
+    the store is unchanged and Set / Get / Remove return the error; `Clear` has no result, it logs and gives up. -/
+def Sys.stepCancelled (c : Cfg) (s : Sys) (op : Op) : Sys × (Out × Out) :=
+  match op with
+  | .tick ms => ({ s with clock := s.clock + ms }, (.ok, .ok))
+  | op =>
+    let a := s.mem.step c (secOf s.clock) op
+    ({ s with mem := a.1 }, (a.2, match op with
+      | .clear => .ok
+      | _ => .err))
+
 /-- the in-memory cache alone, as a machine over the same ops -/
 structure MSys where
   clock : Nat
